@@ -17,6 +17,7 @@ import BumpVerif.Gen.FnVecDrain
 import BumpVerif.Gen.FnVecIntoIter
 import BumpVerif.Gen.FnVecFilter
 import BumpVerif.Gen.FnLossy
+import BumpVerif.Gen.FnStr
 import BumpVerif.Gen.FnBox
 import BumpVerif.Model.Vec
 /-!
@@ -275,6 +276,26 @@ def main : IO Unit := do
     [[0xF0, 0x90, 0x80, 0x80], [0xF4, 0x8F, 0xBF, 0xBF], [0xF4, 0x90, 0x80, 0x80], [0x41, 0xE2, 0x82, 0xAC, 0x42], [0xF0, 0x9F, 0x92], [0xED, 0xA0, 0x80, 0x41]]
   out := add (firstDiff "Utf8LossyChunksIter::next" (strs.map fun b =>
     (s!"bytes={repr (b.map UInt8.toNat)}", toString (repr (Gen.Fn.lossy_next b)), toString (repr (some (Str.lossyNext b)))))) out
+  -- String methods on short texts (valid UTF-8 and not)
+  let texts : List (List UInt8) := [[], [0x41], [0x41, 0x42, 0x43], [0xC3, 0xA9], [0x41, 0xE2, 0x82, 0xAC, 0x42], [0xF0, 0x9F, 0x92, 0xA9, 0x41], [0x41, 0x80], [0xE2, 0x82]]
+  let showB := fun {α : Type} [Repr α] (r : Outcome (List UInt8 × α)) => match r with | .bad _ => "bad" | .ok (t, a) => s!"ok {repr (t.map UInt8.toNat)} {repr a}" | .panic => "panic" | .err => "err" | .envBad => "envBad"
+  let finS := fun {α : Type} (r : RsS.SB × Outcome α) => (match r with | (s, .ok a) => Outcome.ok (RsS.text s, a) | (_, .panic) => .panic | (_, .bad w) => .bad w | (_, .err) => .err | (_, .envBad) => .envBad : Outcome (List UInt8 × α))
+  let ti := texts.flatMap fun t => [0, 1, 2, 3, 4, 5, 6].map fun i => (t, i)
+  out := add (firstDiff "String::pop" (texts.map fun t => (s!"text={repr (t.map UInt8.toNat)}",
+    showB (match finS (Gen.Fn.str_pop (t, t.length)) with | .ok (x, r) => Outcome.ok (x, r.map Prod.fst) | .panic => .panic | .bad w => .bad w | .err => .err | .envBad => .envBad),
+    showB (Str.pop t)))) out
+  out := add (firstDiff "String::remove" (ti.map fun (t, i) => (s!"text={repr (t.map UInt8.toNat)} idx={i}",
+    showB (match finS (Gen.Fn.str_remove i (t, t.length)) with | .ok (x, r) => Outcome.ok (x, r.1) | .panic => .panic | .bad w => .bad w | .err => .err | .envBad => .envBad),
+    showB (Str.remove t i)))) out
+  out := add (firstDiff "String::insert" ((ti.flatMap fun (t, i) => ['a', 'é', '€', '💩'].map fun c => (t, i, c)).map fun (t, i, c) => (s!"text={repr (t.map UInt8.toNat)} idx={i} ch={repr c}",
+    showB (finS (Gen.Fn.str_insert i c (t, t.length))), showB (match Str.insert t i c with | .ok x => Outcome.ok (x, ()) | .panic => .panic | .bad w => .bad w | .err => .err | .envBad => .envBad)))) out
+  out := add (firstDiff "String::truncate" (ti.map fun (t, i) => (s!"text={repr (t.map UInt8.toNat)} new_len={i}",
+    showB (finS (Gen.Fn.str_truncate i (t, t.length))), showB (match Str.truncate t i with | .ok x => Outcome.ok (x, ()) | .panic => .panic | .bad w => .bad w | .err => .err | .envBad => .envBad)))) out
+  let anss : List (String × (Nat → Bool)) := [("all", fun _ => true), ("none", fun _ => false), ("alternate", fun k => k % 2 == 0), ("skip-first", fun k => k != 0)]
+  out := add (firstDiff "String::retain" ((texts.flatMap fun t => anss.flatMap fun a => [none, some 0, some 1, some 2].map fun pa => (t, a, pa)).map fun (t, (an, a), pa) =>
+    (s!"text={repr (t.map UInt8.toNat)} keep={an} panicAt={repr pa}",
+      (match Gen.Fn.str_retain a pa (t, t.length) with | (s, .ok _) => s!"ok {repr ((RsS.text s).map UInt8.toNat)} returned" | (s, .panic) => s!"ok {repr ((RsS.text s).map UInt8.toNat)} unwound" | _ => "bad"),
+      (match Str.retain t a pa with | .ok o => s!"ok {repr (o.bytes.map UInt8.toNat)} {if o.panicked then "unwound" else "returned"}" | _ => "bad")))) out
   -- boxed.rs step sequences
   let cells : List (List Bx.Cell) := [[], [⟨1, 10⟩], [⟨1, 10⟩, ⟨2, 20⟩, ⟨3, 30⟩]]
   let fx0 : Bx.Fx := {}
